@@ -183,6 +183,7 @@ struct Client<'a> {
     /// strict invariant checked on every `stride`-th successful call (long-lived histories)
     stride: usize,
     since_check: usize,
+    calls_seen: usize,
     resilient: bool,
     twin: Option<Twin>,
     moves_on: bool,
@@ -202,7 +203,10 @@ impl Client<'_> {
     /// Is the strict (O(input)) invariant due after this successful call?
     fn due(&mut self) -> bool {
         self.since_check += 1;
-        if self.since_check >= self.stride {
+        self.calls_seen += 1;
+        // the (O(input)) check gets rarer as a history gets longer than planned - a stream that
+        // reports small legal counts turns one drain call into thousands
+        if self.since_check >= self.stride.max(self.calls_seen / 200) {
             self.since_check = 0;
             true
         } else {
@@ -638,6 +642,7 @@ fn execute_inner(t: &Trace, stats: &mut Stats, record: bool) -> Outcome {
         last_was_refusal: false,
         stride: check_stride(t.ops.len()),
         since_check: 0,
+        calls_seen: 0,
         resilient: t.param("resilient_client") == Some(1),
         twin: if t.param("twin_stream") == Some(1) { Some(Twin { stream: anstream::StripStream::new(Vec::new()), fed: 0, steps: 0 }) } else { None },
         moves_on: t.param("moves_on_after_failed_record") == Some(1) && std::str::from_utf8(&t.input).is_ok(),
